@@ -55,6 +55,9 @@ var handCorpus = []string{
 	`<%= if (gid ~= "[13579]q") { %><% let TIME_FORMAT = "2006-01-02" %><% } %><%= tm %>|<%= for (i) in [1, 2, 3] { %><%= tm %>,<% } %>`,
 	`<% let TIME_FORMAT = "Jan 2" %><%= tm %>/<%= for (i) in [1, 2] { %><%= tm %><% } %>`,
 	`<%= tm %>`,
+	// assignment without let to a name that only an outer context binds
+	`<% n0 = n0 + 1 %><%= n0 %>|<%= for (i) in [1, 2] { %><% n0 = n0 + i %><%= n0 %>,<% } %>|<%= n0 %>`,
+	`<% let f = fn() { n0 = n0 + 5  return n0 } %><%= f() %><%= f() %>|<%= n0 %>`,
 	`<%= 1 / 0 %>`,
 	`<%= 1 +`,
 	`<% if (true) { %>open`,
